@@ -175,6 +175,17 @@ fn check_clone<T: Elem, const LEN: usize, const CAP: usize>() {
     assert!(LEN == 0 || core::mem::size_of::<T>() == 0 || c2.as_ptr() != cv.as_ptr(), "C11 clone owns a separate buffer");
     if kani::any() { drop(cv); same(&c2, &o); finish(c2); } else { drop(c2); same(&cv, &o); finish(cv); }
 }
+fn check_clone_from<T: Elem, const LEN: usize, const CAP: usize, const L2: usize, const C2: usize>() {
+    // assignment by clone_from, into a longer / shorter / empty destination
+    let (mut dst, _od) = state::<T, LEN, CAP>();
+    let (src, o) = state::<T, L2, C2>();
+    dst.clone_from(&src);
+    same(&dst, &o);
+    same(&src, &o);
+    assert!(L2 == 0 || core::mem::size_of::<T>() == 0 || dst.as_ptr() != src.as_ptr(), "C11 clone_from leaves the target with its own buffer");
+    if T::COUNTED { assert!(created() - drops() == 2 * L2 as u32, "C11 after clone_from exactly the source's and the target's elements are alive: every replaced element was dropped exactly once"); }
+    if kani::any() { drop(src); same(&dst, &o); finish(dst); } else { drop(dst); same(&src, &o); finish(src); }
+}
 fn check_write<T: Elem, const LEN: usize, const CAP: usize>() {
     let (mut cv, mut o) = state::<T, LEN, CAP>();
     let i: usize = kani::any();
@@ -350,6 +361,22 @@ fn p_stored_reserve_spare() {
     assert!(cv.capacity() - cv.len() >= 3);
     drop(cv);
     kani::cover!(true, "reaches end");
+}
+#[kani::proof]
+fn p_stored_clone_is_own_allocation() {
+    // a clone is a NEW allocation made on this side: it carries the functions of ITS allocator and
+    // never hands its buffer to the source's stored functions (nor the source's buffer to its own)
+    let cv = stored::<2, 3>();
+    let mut cl = cv.clone();
+    assert!(cl.len() == 2 && cl[0] == cv[0] && cl[1] == cv[1] && cl.as_ptr() != cv.as_ptr(), "C11 clone has the same elements in its own buffer");
+    let grow: bool = kani::any();
+    if grow { cl.push(3); cl.push(4); cl.push(5); assert!(cl.len() == 5 && cl[4] == 5); }
+    drop(cl);
+    unsafe { assert!(REC_DROP == 0 && REC_RESERVE == 0, "C11 growing and dropping a clone never goes through the SOURCE's stored functions"); }
+    let trip = (cv.data as usize, cv.len, cv.capacity);
+    drop(cv);
+    unsafe { assert!(REC_DROP == 1 && REC_DROP_ARGS == trip, "C11 the source is still released through its own stored function, once"); }
+    kani::cover!(grow, "clone grown");
 }
 #[kani::proof]
 fn p_stored_no_drop_fn() {
